@@ -124,6 +124,7 @@ fn base_weight(op: OpKind) -> u32 {
         Evict => 3,
         IterAbandon => 2,
         CompileAbort => 2,
+        TrapCall => 2,
     }
 }
 
@@ -140,7 +141,8 @@ fn boost(prop: Prop, op: OpKind) -> u32 {
         (Prop::C05, IsEmpty | GetString) => 16,
         (Prop::C07, Reissue) => 5,
         (Prop::C07, EqCheck | ComplTwice) => 4,
-        (Prop::C07, CharDeriv | StrDeriv | Compile | IsEmpty) => 2,
+        (Prop::C07, CharDeriv | StrDeriv | Compile | IsEmpty | GetString | StartChar) => 2,
+        (Prop::C07, StrInRe) => 3,
         (Prop::C10, Replace | ReplaceAll) => 14,
         (Prop::C16, IncludedIn) => 12,
         (Prop::C16, Union | UnionList) => 2,
@@ -337,6 +339,7 @@ impl<'a> Gen<'a> {
             Evict => Step::new(cl, op).a(self.rng.below(3) as u32, 2 + self.rng.below(5) as u32, 0),
             IterAbandon => Step::new(cl, op).a(self.h(c), 1 + self.rng.below(6) as u32, 0),
             CompileAbort => Step::new(cl, op).a(self.h(c), 1 + self.rng.below(4) as u32, 0),
+            TrapCall => Step::new(cl, op).a(self.h(c), self.rng.below(8) as u32, self.single_code()).s(self.cstr()),
         };
         self.push(st);
     }
@@ -345,7 +348,7 @@ impl<'a> Gen<'a> {
     fn idiom(&mut self, c: usize) {
         use OpKind::*;
         let cl = c as u8;
-        match self.rng.below(12) {
+        match self.rng.below(14) {
             0 => {
                 // intersection of two disjoint atoms, then a loop over the (semantically) empty body
                 let a = self.single_code();
@@ -550,6 +553,23 @@ impl<'a> Gen<'a> {
                 } else {
                     self.push(Step::new(cl, Concat).a(x, y, 0));
                 }
+            }
+            12 | 13 => {
+                // the same membership question before and after another kind of call on the same term
+                let h = self.h(c);
+                let s = self.qstr();
+                let salt = self.rng.u32();
+                self.push(Step::new(cl, StrInRe).a(h, salt, 0).s(s.clone()));
+                let mid = [IsEmpty, GetString, StartChar, Compile, Closure, IterAbandon, CompileAbort, Evict, ClassInfo, TrapCall]
+                    [self.rng.below(10) as usize];
+                self.gen_op(c, mid);
+                // make the middle call address the same term where it takes a handle
+                if let Some(last) = self.steps.last_mut() {
+                    if last.op.handle_refs().0 >= 1 {
+                        last.a[0] = h;
+                    }
+                }
+                self.push(Step::new(cl, StrInRe).a(h, salt, 0).s(s));
             }
             10 | 11 => {
                 // a character class with many pieces: union of 3-6 chars / ranges (many derivative
